@@ -144,10 +144,19 @@ def prepare(tier, scratch):
         n = c["name"]
         if c.get("gen_only"):
             continue  # both operands constant: the interpreter does not fold; these cases exist for the generator's constant folding
+        if n.startswith("i3m_") and any(k in n for k in ("MUL", "DIV", "MOD")) and os.environ.get("VERIF_DEEP") != "1":
+            # memory-operand shapes of the multipliers/dividers: the interpreter sees them only after simplification has split
+            # them into loads/stores + the register form (decided by interp.i3_*); rmr/rrm gave no verdict in 900 s.  The
+            # generated-code leg, where memory-operand patterns are selected, keeps them.
+            DEFERRED.append("interp." + n)
+            continue
         if n.startswith("i3_") and any(k in n for k in ("MUL", "DIV", "MOD")):
             solver = "z3"  # also the immediate shapes: MiniSat gave no verdict in 300 s for mul/muls by -1 and by 0x7fffffff
         if n.startswith("fp3i_"):
             solver, timeout = "cadical", 600
+            if "DIV_a" in n and not n.endswith(("_a0p0", "_am0p0")) and os.environ.get("VERIF_DEEP") != "1":
+                DEFERRED.append("interp." + n)  # constant / x with a non-zero constant: a full divider, no verdict in 600 s (measured)
+                continue
         if n.startswith(("fp3_", "cv_")):
             # fp arithmetic / conversions through the interpreter: the operands live in the MIR_val_t union, so cbmc --fpa is not
             # usable ("flatten2bv of a non-constant FPA-encoded float is unsupported") and bit-blasted z3 gave no verdict in 900 s
